@@ -916,6 +916,14 @@ func genFuncs() string {
 			}
 		}
 		fmt.Fprintf(&sb, "/-- %s sessionResponseWriter.WriteHeader: (Path, Secure, HttpOnly) of the session cookie; Name = configured name, Value = session ID, Expires = now + configured lifetime (checked syntactically by goextract) -/\ndef sessions_cookieAttrs (disableSSLForTest : Bool) : Bytes × Bool × Bool := (%s, %s, %s)\n\n", rel, t.expr(pathE), t.expr(secE), t.expr(httpE))
+		// the header edits of WriteHeader as a function (slice: header operations and the ifs guarding them)
+		ts := &tctx{pkg: "sessions", env: collectConsts(f), where: rel + ":sessionResponseWriter.WriteHeader (header slice)",
+			hdrVars: map[string]string{"header": "header"},
+			subst:   map[string]string{"w.sessionID == \"\"": "noSession", "sessionCookie.String()": "sessionCookie", "len(cookiesToAdd)": "parsedCookies"}}
+		sl := ts.slice(fd.Body.List)
+		hb := append([]string{"  let mut header := header0"}, ts.stmts(sl, "  ")...)
+		hb = append(hb, "  return header")
+		emitDef(&sb, "sessions_writeHeaderEdits (noSession : Bool) (sessionCookie : Bytes) (parsedCookies : Nat) (header0 : Hdr) : Hdr", hb, rel+" sessionResponseWriter.WriteHeader: edits of the response header (slice)")
 		// the writer deletes every Set-Cookie and adds only the session cookie
 		body := src(fd.Body)
 		for _, need := range []string{"header.Del(\"Set-Cookie\")", "header.Add(\"Set-Cookie\", sessionCookie.String())", "if w.sessionID == \"\" {"} {
